@@ -192,9 +192,23 @@ PROPS["C11"] = {
     "assumptions": COMMON_ASSUME + ["the async functions are driven to completion with now_or_never: in-memory futures never return Pending (suspension schedules are C12)"],
 }
 
+PROPS["C14"] = {
+    "extract": [],
+    "rule": "cases = one input run under a lattice of configurations. limit: 200 (2000) files with one or two moov boxes in four layouts (a sixth bit-flipped, a sixth truncated, a sixth with a trailing box) under max_metadata_size in {0, 1, m-1, m, m+1 for each moov payload size m, 2^30, u64::MAX}: every result must be InvalidInput or equal to the result at the top limit, rejections are downward closed in the limit, and each result equals the model's. cum: 200 (2000) files with an until-EOF mdat in three positions, a sized mdat, or an until-EOF non-mdat, under cumulative_mdat_box_size in {none, 0,1,2,7,8,9, exact-1, exact, exact+1, exact+40, 100000, u32::MAX}: the result with the option set must equal the result of the input whose mdat size field is rewritten to that value with the option unset, must equal the unset result when there is no until-EOF mdat, and equals the model's. unknown: 600 (6000) chunk sequences (simple / extended / animated, unknown chunks trailing, inside ANMF, and mid-sequence; known chunks out of place) with allow_unknown_chunks off and on: off-result is UnsupportedChunk or equals on-result; both equal the model's. non-trivial = cases where the option changes the result (tags limit-bites / option-bites) or the input is accepted; distinct = distinct inputs",
+    "trivial_tags": ["limit", "cum", "unknown", "limit-irrelevant", "option-inert", "rejected", "no-eof-mdat", "eof-mdat"],
+    "shards": {"quick": 4, "thorough": 16},
+    "trusted_base": MP4_TRUSTED + ["the WebP container model (MediaSan/Webp/Sanitize.lean), validated per case", "the builder setters (ConfigBuilder) are exercised by the harness, not modelled: the model takes the configuration record"],
+    "assumptions": COMMON_ASSUME + ["limits above 2^24 are not run on inputs whose corrupted size field declares a moov above 2^24 bytes (the real allocation of such a buffer is outside the model; allocation behaviour is C10)"],
+}
+
 NOT_APPLICABLE = {}
 
 MANIFEST_TEXT = {
+    "C14": {
+        "text": "Lean theorems (relation AgreeUnless e p q over I/O programs: p and q are the same program except where p fails with e; run_agree lifts it to every cursor): C14_limit - for limits L <= L', every cursor and stream, the MP4 run with limit L ends in InvalidInput or returns exactly the run with L' (hence acceptance is monotone in the limit and an accepted result never depends on it); the limit is compared before the payload is read (C14_limit_before_read). C14_unknown - the WebP run with allow_unknown_chunks off ends in UnsupportedChunk or equals the run with it on, through every loop of the container program; so no other error is masked and accepted inputs are unaffected. C14_cumulative_header - the option rewrites exactly the header of an until-EOF mdat to the given 32-bit size (values < 8 are then InvalidInput) and is the identity otherwise. Correspondence: configuration lattices run on the real crates (incl. the rewritten-size-field equivalence for cumulative_mdat_box_size) and compared with the model.",
+        "note": "Trusted: Lean kernel and standard axioms; the models of both sanitizers (validated per case); the cumulative-size claim at whole-run level ('equals the input with the size field rewritten') is decided per case on the implementation, the theorem is at header level.",
+        "technique": "Lean 4 proof by a program-agreement relation (induction over I/O programs and loop fuel) + differential check over configuration lattices",
+    },
     "C15": {
         "text": "Lean theorem C15_refines: for every stream (< 2^62 bytes), seek-based or strict underlying skip, every capacity >= 1, every read chunking and EVERY history of read_exact / skip / stream_position / stream_len / fill_buf / read_to_end calls of any length, BufReader(cap) with the Skip impl of common/src/skip.rs returns exactly the bytes, positions, lengths and errors of the ideal cursor - proved as a per-operation simulation (abstraction: ideal position = inner position - buffered; buffer = stream bytes at the ideal position), including the read loop under arbitrary short reads, and lifted to histories by induction over I/O programs. SeekSkipAdapter: skip equals the ideal seek-based skip for every amount (also > i64::MAX) and stream_len restores the position. Correspondence: exhaustive short histories x capacities 1..9 x all 13 provided adapters (sync, async, forwarding, File), long random histories, sparse streams up to 2^64-1.",
         "note": "Trusted: Lean kernel and standard axioms; the adapter model (validated differentially against std/futures BufReader, Cursor, File); nested stacks and forwarding wrappers are covered by the correspondence only.",
